@@ -323,8 +323,7 @@ def run_driver(lines: list[str]) -> list[str]:
     return r.stdout.split('\n')[:-1]
 
 
-def diff(rec: Recorder) -> dict:
-    out = run_driver(rec.lines)
+def compare(rec: Recorder, out: list[str]) -> dict:
     res = {'transitions': len(rec.lines) - rec.nhdr, 'mismatch': None}
     if len(out) != len(rec.lines):
         res['mismatch'] = {'at': -1, 'why': 'driver output length '
@@ -336,6 +335,10 @@ def diff(rec: Recorder) -> dict:
                                'impl': exp, 'model': got}
             break
     return res
+
+
+def diff(rec: Recorder) -> dict:
+    return compare(rec, run_driver(rec.lines))
 
 
 def report(ck, agg, prop):
